@@ -113,6 +113,12 @@ MUTANTS = [
         ('a5/math/vec3.py', "    crossCD = [0.0, 0.0, 0.0]\n    cross(crossCD, b, c)\n    # Return dot product a · (b × c)\n    return dot(a, crossCD)\n",
          "    with _CD_LOCK:\n        crossCD = _SHARED_CD\n        cross(crossCD, b, c)\n        r = dot(a, crossCD)\n    return r\n"),
     ], 3000),
+    ('c17_ttl_cache_rebuilds_differently_after_clock_jump', 'C17', 'violation', [
+        ('a5/projections/polyhedral.py', "        if cache_key not in self._inverse_triangle_cache:\n",
+         "        import time\n        _now = time.monotonic()\n        _old = self._inverse_triangle_cache.get(cache_key)\n        _expired = _old is not None and _now - _old['t'] > 300.0\n        if _old is None or _expired:\n"),
+        ('a5/projections/polyhedral.py', "                'V': vec3.dot(A, c1)  # Triple product of A, B, C\n            }\n",
+         "                'V': vec3.dot(A, c1),  # Triple product of A, B, C\n                't': _now\n            }\n            if _expired:\n                constants['area_abc'] = constants['area_abc'] * (1 + 4e-16)\n"),
+    ], 3000),
 ]
 
 
